@@ -31,7 +31,7 @@ def build_cases(tier, seed):
         spec = random_spec(s, prof)
         steps = spec["sim"]["steps"]
         # requests throughout the run so that the dispatcher always has work
-        cases.append(trace_case("C20", i, s, prof, BUILTIN, steps, ["C20"]))
+        cases.append(trace_case("C20", i, s, prof, BUILTIN, steps, ["C20"], opts=({"cosim_noops": 5 + i % 6} if i % 3 == 1 else {})))
     return cases
 
 
